@@ -8,7 +8,7 @@ TRUSTED = [
 ]
 UNVERIFIED = [
     'PositionFees::{for_receiver, for_pool, total_cost_excluding_funding}: sums whose values flow through unannotated closures (and_then with if-let); not extracted (out of Verus\' reach); their parts (fee_amount_for_pool of each kind) are under contract',
-    'deposit / withdrawal / swap call sites of apply_fees are covered by the whole-action harnesses of C04 (swap); the call sites in Deposit/Withdrawal::execute are not separately proved here',
+    'deposit / withdrawal / swap call sites of apply_fees: covered by the whole-action contracts of C04 / C05 (swap) and C06 (Deposit::charge_fees with the impact\'s balance change, Withdrawal::charge_fees with Worsened; verus/C06_deposit.rs), not repeated here',
 ]
 ASSUMPTIONS = ['u128 instance only (the on-chain instance)']
 MANIFEST = dict(engine='verus',
